@@ -137,11 +137,10 @@ CLAIMED = {
    design="7/C13", technique="Coq proof incl. finite-cycle sweep by vm_compute lifted by a periodicity lemma + correspondence check"),
  'C15': dict(
    text="Machine-checked theorems (props/C15.v: rejected_is_noop for every state and every non-update request, "
-        "backwards_update_is_noop / update_validation_is_noop for the repaired clock update, portfolio_rejected_is_noop, "
+        "reachable_rejected_is_noop for every reachable state and every request incl. the repaired clock update, validated_update_never_refuses_the_timestamp, portfolio_rejected_is_noop, "
         "and a two-directional refusal table) plus update_backwards_refuted (the pinned update violates it). Tied to /repo "
         "by malformed-heavy operation sequences on the real broker and Portfolio with full before/after snapshots.",
-   note=TRUST + "Partial: that an update which passes the up-front timestamp validation can no longer be refused for an early "
-        "timestamp deeper down is covered by the correspondence runs, not yet by a theorem. Clocks are excluded (not in the property's list).",
+   note=TRUST + "Complete for every state reachable from a fresh broker (reachable_rejected_is_noop, incl. that a validated update can no longer refuse the timestamp). Clocks are excluded (not in the property's list); update failures for reasons the property does not list (missing quote, non-positive data price) are outside its scope.",
    design="7/C15", technique="Coq proof by case analysis on the step function + model/implementation correspondence check"),
  'C16': dict(
    text="Machine-checked theorems (props/C16.v): after any price stream the N-window is the most recent N prices; momentum over the "
